@@ -30,6 +30,7 @@ import (
 	"gitlab.com/yawning/obfs4.git/common/drbg"
 	"gitlab.com/yawning/obfs4.git/common/probdist"
 	"gitlab.com/yawning/obfs4.git/transports"
+	"gitlab.com/yawning/obfs4.git/transports/base"
 	"gitlab.com/yawning/obfs4.git/transports/obfs4"
 	"gitlab.com/yawning/obfs4.git/transports/obfs4/framing"
 
@@ -238,6 +239,12 @@ var setBias sync.Mutex
 // the 45-byte seed frame is held back until the handshake has completed, so that the client
 // processes it at its first Read and its earlier Writes use its own distribution.
 func newPair(seedHex string, srvIat, cliIat int, biased bool, coalesce bool) (*pair, error) {
+	return newPairCF(nil, seedHex, srvIat, cliIat, biased, coalesce)
+}
+
+// newPairCF is newPair with the client side dialled from a given ClientFactory (nil: a fresh
+// one), so that several live connections can share one factory as they do in obfs4proxy.
+func newPairCF(sharedCF base.ClientFactory, seedHex string, srvIat, cliIat int, biased bool, coalesce bool) (*pair, error) {
 	if err := flag.Set("obfs4-distBias", strconv.FormatBool(biased)); err != nil {
 		return nil, err
 	}
@@ -256,9 +263,11 @@ func newPair(seedHex string, srvIat, cliIat int, biased bool, coalesce bool) (*p
 	if err != nil {
 		return nil, fmt.Errorf("ServerFactory: %w", err)
 	}
-	cf, err := tr.ClientFactory(dir)
-	if err != nil {
-		return nil, err
+	cf := sharedCF
+	if cf == nil {
+		if cf, err = tr.ClientFactory(dir); err != nil {
+			return nil, err
+		}
 	}
 	cargs := &pt.Args{}
 	cert, _ := sf.Args().Get("cert")
@@ -814,6 +823,8 @@ type scenarioCase struct {
 	Foreign string `json:"foreign,omitempty"`
 	// "reseed-race": the server streams Packets seed packets alternating SeedA (large table) and
 	// SeedB (tiny table) while the client keeps writing from another goroutine
+	// "multi-conn": one ClientFactory, one live connection per bridge seed
+	Seeds   []string `json:"seeds,omitempty"`
 	SeedA   string `json:"seed_a,omitempty"`
 	SeedB   string `json:"seed_b,omitempty"`
 	Packets int    `json:"packets,omitempty"`
@@ -1033,6 +1044,102 @@ func reseedRace(r *vlib.Run, p *pair, c scenarioCase) {
 	}
 }
 
+// multiConn: one ClientFactory dials several bridges with DIFFERENT seeds; the connections stay
+// live together. Each connection must hold the distributions of its OWN bridge at every point
+// (after every establishment / adoption and around every Write on any connection) and its bursts
+// must follow them.
+func multiConn(r *vlib.Run, ds, dd *vlib.Driver, c scenarioCase) {
+	rng := vlib.NewRng(c.RngKey)
+	key := fmt.Sprintf("multi-conn|%s|%d|%d|%v|%d", strings.Join(c.Seeds, ","), c.SrvIat, c.CliIat, c.Biased, c.RngKey)
+	r.Case(key, len(c.Seeds) >= 2)
+	r.Count("multi-conn", fmt.Sprintf("%d bridges cli-iat=%d", len(c.Seeds), c.CliIat))
+	dir, err := os.MkdirTemp("", "c09-cf-")
+	if err != nil {
+		panic(err)
+	}
+	defer os.RemoveAll(dir)
+	cf, err := transports.Get("obfs4").ClientFactory(dir)
+	if err != nil {
+		panic(err)
+	}
+	var pairs []*pair
+	defer func() {
+		for _, p := range pairs {
+			p.close()
+		}
+	}()
+	own := make([]*dist, len(c.Seeds))
+	ownIat := make([]*dist, len(c.Seeds))
+	// every live connection holds its own bridge's tables
+	checkAll := func(when string) bool {
+		for i, p := range pairs {
+			cl, ci := lenDist(p.cli.conn), iatDist(p.cli.conn)
+			if cl.str != own[i].str || (c.CliIat != 0 && (ci == nil || ci.str != ownIat[i].str)) {
+				whose := "neither its own nor another live bridge's"
+				for j := range pairs {
+					if j != i && cl.str == own[j].str {
+						whose = fmt.Sprintf("those of bridge %d (seed %s)", j, c.Seeds[j])
+					}
+				}
+				r.Violate("connection-uses-another-bridges-distribution", "impl-oracle",
+					fmt.Sprintf("%d live connections from one ClientFactory; %s: connection %d (bridge seed %s) holds length/IAT tables %s — %s… instead of %s…", len(pairs), when, i, c.Seeds[i], whose, clip(joinInts(cl.values), 40), clip(joinInts(own[i].values), 40)), c)
+				return false
+			}
+		}
+		return true
+	}
+	for i, seed := range c.Seeds {
+		own[i] = ownDist(seed, mss, c.Biased)
+		ownIat[i] = ownDist(iatSeedOf(seed), 100, c.Biased)
+		if tableClass(own[i].values) != "normal" && c.CliIat == 2 {
+			return
+		}
+		coalesce := (c.RngKey>>uint(i))&1 == 0
+		p, err := newPairCF(cf, seed, c.SrvIat, c.CliIat, c.Biased, coalesce)
+		if err != nil {
+			r.Violate("handshake-fails", "impl-oracle", fmt.Sprintf("in-process obfs4 handshake failed: %v", err), c)
+			return
+		}
+		pairs = append(pairs, p)
+		for _, sc := range []*vlib.ScriptConn{p.cli.sc, p.srv.sc} {
+			sc.FireDeadlines = true
+			sc.SetReadDeadline(far)
+		}
+		if !p.coalesced {
+			drain(p.cli) // the held seed frame: adopted at the first Read
+		}
+		if !checkAll(fmt.Sprintf("after connection %d was established and processed its seed packet", i)) {
+			return
+		}
+	}
+	// writes A, B, A, (C), ...: each burst follows the writer's own bridge
+	sent := make([]int, len(pairs))
+	for k := 0; k < 3*len(pairs); k++ {
+		i := k % len(pairs)
+		if k >= len(pairs) {
+			i = rng.Intn(len(pairs))
+		}
+		p := pairs[i]
+		pc := c
+		pc.Seed = c.Seeds[i]
+		n := vlib.Pick(rng, writeSizes)
+		if !runWrite(r, ds, p, "client", n, indicesFor(rng, own[i], c.CliIat, n, "big"), pc) {
+			return
+		}
+		sent[i] += n
+		if !checkAll(fmt.Sprintf("after write %d (on connection %d)", k, i)) {
+			return
+		}
+	}
+	for i, p := range pairs {
+		deliver(p.cli, p.srv)
+		if got, prob := drain(p.srv); got != sent[i] || prob != "" {
+			r.Violate("server-does-not-receive-client-bytes", "impl-oracle", fmt.Sprintf("connection %d: client wrote %d bytes, server read %d (%s)", i, sent[i], got, prob), c)
+			return
+		}
+	}
+}
+
 func scenario(r *vlib.Run, ds, dd *vlib.Driver, c scenarioCase) {
 	defer func() {
 		if p := recover(); p != nil {
@@ -1045,6 +1152,10 @@ func scenario(r *vlib.Run, ds, dd *vlib.Driver, c scenarioCase) {
 	reader.inner = tape
 	cryptRand.Reader = reader
 	csrand.Reader = reader
+	if c.Op == "multi-conn" {
+		multiConn(r, ds, dd, c)
+		return
+	}
 	// a quarter of the adoption scenarios deliver the seed frame coalesced with the response
 	coalesce := (c.Op != "write1" && c.RngKey%4 == 0) || c.Op == "foreign-seed" || c.Op == "reseed-race"
 	p, err := newPair(c.Seed, c.SrvIat, c.CliIat, c.Biased, coalesce)
@@ -1323,6 +1434,18 @@ func main() {
 		seed, _ := findSeed(frng, 5000, func(v []int) bool { return tableClass(v) == "normal" })
 		foreign, _ := findSeed(frng, 5000, func(v []int) bool { return tableClass(v) == "normal" })
 		scenario(r, ds, dd, scenarioCase{Op: "foreign-seed", Seed: seed, Foreign: foreign, SrvIat: i % 3, CliIat: (i / 3) % 3, Biased: i%2 == 1, RngKey: frng.U64()})
+	}
+
+	// ---- (f) several live connections of one ClientFactory to bridges with different seeds
+	mrng := rng.Fork()
+	for i, n := 0, r.Scale(9, 54); i < n; i++ {
+		k := 2 + i%2
+		var seeds []string
+		for j := 0; j < k; j++ {
+			sd, _ := findSeed(mrng, 5000, func(v []int) bool { return tableClass(v) == "normal" })
+			seeds = append(seeds, sd)
+		}
+		scenario(r, ds, dd, scenarioCase{Op: "multi-conn", Seeds: seeds, SrvIat: i % 3, CliIat: (i / 2) % 3, Biased: i%4 == 3, RngKey: mrng.U64()})
 	}
 
 	// ---- (e) seed packets streaming in while the client writes (Reset vs Sample, truly concurrent)
